@@ -272,5 +272,7 @@ def run(chk):
     # per-z potential splines (state anchor of the property): distinct objects, consistent index space, own plane/velocity
     from .C05 import poloidal
     poloidal(chk)
+    from .. import lints as _l
+    _l.check_cache_keys(chk, U.ADV, "PoloidalAdvection")
     chk.floor("F1-", 14)
     chk.floor("E", 6)
